@@ -168,6 +168,29 @@ func n2ExceptionFor(c *Ctx, pk *pkgT, fd *ast.FuncDecl) string {
 		}
 		return !found
 	})
+	// the insertion may be split over helpers: a function inside the allOf expansion (reachable
+	// from the expander) that fetches the base type from the user types has the same role
+	if !found {
+		if exp := c.allOfExpander(); exp != nil {
+			if self, _ := pk.TypesInfo.Defs[fd.Name].(*types.Func); self != nil {
+				inside := false
+				for _, f := range reachStatic(c.P, pk, []*types.Func{exp}) {
+					if f == self {
+						inside = true
+					}
+				}
+				utGet := c.Func("catalog", "UserTypes.Get")
+				if inside && utGet != nil {
+					ast.Inspect(fd.Body, func(n ast.Node) bool {
+						if call, ok := n.(*ast.CallExpr); ok && Callee(pk.TypesInfo, call) == utGet {
+							found = true
+						}
+						return !found
+					})
+				}
+			}
+		}
+	}
 	if found {
 		return "the base of an allOf rule (in the function that inserts inherited properties): the schema library rejects a non-object (hence any non-JSight) allOf base when the referring schema is compiled, before compileCatalog runs"
 	}
